@@ -92,6 +92,11 @@ class C10(Prop):
             if len(obs["results"]) != len(cs):
                 return f"{len(obs['results'])} results for {len(cs)} combinations"
             for i, (r, s) in enumerate(zip(obs["results"], singles)):
+                if s["status"] == "failed" and case["runner"] == "async" and r["status"] == "failed" and r["error"] == s["error"] \
+                        and all(kv in r["values"] for kv in s["values"]):
+                    # the reference single run is synchronous; an async item that fails may additionally hold the outputs of the
+                    # failing node's step-siblings that completed (C02: every partial value of the sync runner is returned by the async one)
+                    continue
                 if (r["status"], r["values"], r["error"]) != (s["status"], s["values"], s["error"]):
                     return f"item {i}: map returned {r['status']}/{r['values']}/{r['error']}, a single run on that combination gives {s['status']}/{s['values']}/{s['error']}"
             return None
